@@ -409,8 +409,13 @@ func Inputs(r *rand.Rand, g *Grammar, start string, n int, alphabet []rune) []st
 // shapes behind rule references used once (inlinable) or several times, under * + ? and inside lookahead.
 func ChoiceHeavy(r *rand.Rand) *Grammar {
 	alpha := []rune("abcdefgz")
-	if r.Intn(6) == 0 {
+	switch r.Intn(6) {
+	case 0:
 		alpha = []rune{0, 'a', 'b', 'c', 0x10FFFF, 0x10FFFE, 'é'}
+	case 1, 2, 3:
+		// a wide alphabet: alternatives with several first characters can still be pairwise disjoint, so that
+		// multi-key switch cases (not only single-key ones) are produced
+		alpha = []rune("abcdefghijklmnopqrstuvwxyz0123456789")
 	}
 	for {
 		g := &gen{r: r, p: &Profile{Alphabet: alpha}}
@@ -468,7 +473,11 @@ func ChoiceHeavy(r *rand.Rand) *Grammar {
 		}
 		alternative = func(depth int) *Expr {
 			var head []*Expr
-			switch r.Intn(16) {
+			hk := r.Intn(19)
+			if hk >= 16 {
+				hk = 8 // the inner-choice head gets extra weight
+			}
+			switch hk {
 			case 0:
 				head = []*Expr{Un(KQuery, term())} // nullable
 			case 1:
@@ -490,7 +499,20 @@ func ChoiceHeavy(r *rand.Rand) *Grammar {
 					head = []*Expr{term()}
 				}
 			case 8:
-				head = []*Expr{Un(KCapture, term())}
+				// a capture (or a bare group) whose body starts with a small inner choice of sequences with different
+				// first characters: the "first comparison may be skipped" flag travels through <...> and ( / )
+				inner := Alt(Seq(term(), term()), Seq(term(), Un(KQuery, term())))
+				if r.Intn(3) == 0 {
+					inner.Kids = append(inner.Kids, term())
+				}
+				switch r.Intn(3) {
+				case 0:
+					head = []*Expr{Un(KCapture, term())}
+				case 1:
+					head = []*Expr{Un(KCapture, inner)}
+				default:
+					head = []*Expr{inner}
+				}
 			case 9:
 				head = []*Expr{Un(KPlus, term())}
 			case 10:
@@ -675,7 +697,24 @@ func Backtracky(r *rand.Rand, alphabet []rune) *Grammar {
 		g.Rules = append(g.Rules, &Rule{Name: "R0", E: body})
 		for i := 0; i < nh; i++ {
 			var e *Expr
-			switch r.Intn(6) {
+			switch r.Intn(8) {
+			case 6, 7:
+				// a helper whose own alternatives call the same rules again ("Item ',' List / Item"): analyses that
+				// walk rule references (always-succeeds, first sets, reference counts) meet a rule more than once
+				if i+1 < nh {
+					x := Ref(names[2+i+r.Intn(nh-i-1)])
+					x2, x3 := *x, *x
+					switch r.Intn(3) {
+					case 0:
+						e = Alt(Seq(x, term(), Ref(names[1+i])), &x2)
+					case 1:
+						e = Alt(Seq(x, term(), &x3), &x2)
+					default:
+						e = Alt(Seq(x, term()), Seq(&x2, Act()))
+					}
+				} else {
+					e = Alt(Seq(term(), term()), term())
+				}
 			case 0:
 				e = Seq(Un(KCapture, Un(KPlus, term())), Act())
 			case 1:
